@@ -77,6 +77,10 @@ func run(seed int64, n int, dir string, _ []string) {
 	}
 	o.Case("c10.check", "ok") // the model-side search over every prefix of the regenerated sequence
 	caseTwins(o, bin, scratch)
+	thorough := os.Getenv("VERIF_TIER") == "thorough"
+	// (generators of their own: the crash rounds below see the same random sequence as before)
+	mixedCommits(o, hc.NewGen(seed*7919+1), bin, scratch, map[bool]int{false: 6, true: 40}[thorough])
+	encodeFailures(o, hc.NewGen(seed*7919+2), bin, scratch, thorough)
 
 	// ---- the byte-level file model (ftruncate / lseek / write on one descriptor) against the operating system ----
 	for i := 0; i < 30+n/4; i++ {
